@@ -470,7 +470,13 @@ def analyse(repo_root, frames_path, sub="fastavro", skip=("__main__.py",)):
             allowed = modifies.get((rel, q), modifies.get((rel, q.split(".<locals>.")[0]), []))
             fa = FuncAnalysis(mf, q, node, cls, allowed, gm)
             sites += fa.sites()
+    import hashlib
+    h = hashlib.sha256()
+    for rel in sorted(mods):
+        h.update(rel.encode())
+        h.update(ast.dump(mods[rel].tree, include_attributes=False).encode())
     inventory = {
+        "source_hash": h.hexdigest()[:16],
         "mutable_globals": {rel: mf.mutable_globals for rel, mf in mods.items() if mf.mutable_globals},
         "mutable_defaults": {},
         "class_attrs": {rel: mf.class_attrs for rel, mf in mods.items() if mf.class_attrs},
